@@ -13,7 +13,7 @@ func init() {
 	registry["C01"] = runC01
 }
 
-func errClass(err error) string {
+func c01ErrClass(err error) string {
 	if err == nil {
 		return "ok"
 	}
@@ -26,7 +26,7 @@ func errClass(err error) string {
 	return "err"
 }
 
-func serializeSafe(p *profile.Profile) (b []byte, panicked bool) {
+func c01Serialize(p *profile.Profile) (b []byte, panicked bool) {
 	defer func() {
 		if r := recover(); r != nil {
 			panicked = true
@@ -40,7 +40,7 @@ func serializeSafe(p *profile.Profile) (b []byte, panicked bool) {
 }
 
 // parseObs: ParseUncompressed result + what happens when the result is written and parsed again.
-func parseObs(data []byte) Term {
+func c01ParseObs(data []byte) Term {
 	var out Term
 	func() {
 		defer func() {
@@ -50,21 +50,21 @@ func parseObs(data []byte) Term {
 		}()
 		q, err := profile.ParseUncompressed(data)
 		if err != nil {
-			out = L(S(errClass(err)))
+			out = L(S(c01ErrClass(err)))
 			return
 		}
 		d1 := DumpProfile(q)
-		b2, pan := serializeSafe(q)
+		b2, pan := c01Serialize(q)
 		if pan {
 			out = L(S("ok"), d1, L(S("reserialize-panic")))
 			return
 		}
 		q2, err := profile.ParseUncompressed(b2)
 		if err != nil {
-			out = L(S("ok"), d1, L(S("reparse-"+errClass(err)), S(string(b2))))
+			out = L(S("ok"), d1, L(S("reparse-"+c01ErrClass(err)), S(string(b2))))
 			return
 		}
-		b3, _ := serializeSafe(q2)
+		b3, _ := c01Serialize(q2)
 		out = L(S("ok"), d1, L(S("ok"), S(string(b2)), DumpProfile(q2), S(string(b3))))
 	}()
 	return out
@@ -84,7 +84,7 @@ func c01Knobs(r *Rng) Knobs {
 
 // valueListProfile: a one-sample profile whose location list and value list have chosen lengths
 // (the packed/unpacked switch is at length 3) and extreme contents.
-func valueListProfile(r *Rng, nloc, nval int) *profile.Profile {
+func c01ValueListProfile(r *Rng, nloc, nval int) *profile.Profile {
 	p := &profile.Profile{}
 	ext := []int64{0, 1, -1, 127, 128, 1 << 31, -(1 << 31), 1<<63 - 1, -(1 << 63), 16383, 16384}
 	for i := 0; i < nval; i++ {
@@ -120,7 +120,7 @@ func valueListProfile(r *Rng, nloc, nval int) *profile.Profile {
 	return p
 }
 
-func mutate(r *Rng, b []byte) []byte {
+func c01Mutate(r *Rng, b []byte) []byte {
 	c := append([]byte(nil), b...)
 	if len(c) == 0 {
 		return c
@@ -154,7 +154,7 @@ func mutate(r *Rng, b []byte) []byte {
 	return c
 }
 
-func fieldSoup(r *Rng) []byte {
+func c01FieldSoup(r *Rng) []byte {
 	var b []byte
 	putv := func(x uint64) {
 		for x >= 128 {
@@ -198,7 +198,7 @@ func runC01(c *Ctx) {
 	r := c.R
 	serCase := func(gen string, p *profile.Profile, nt bool, tags ...string) []byte {
 		in := DumpProfile(p)
-		b, pan := serializeSafe(p)
+		b, pan := c01Serialize(p)
 		if pan {
 			c.Case(gen, L(S("ser"), in), L(S("panic")), nt, append(tags, "ser:panic")...)
 			return nil
@@ -250,7 +250,7 @@ func runC01(c *Ctx) {
 			if len(pool) < 400 {
 				pool = append(pool, b)
 			}
-			c.Case("gen", L(S("parse"), S(string(b))), parseObs(b), nontriv(p), "op:parse", "parse:valid-encoding")
+			c.Case("gen", L(S("parse"), S(string(b))), c01ParseObs(b), nontriv(p), "op:parse", "parse:valid-encoding")
 			rtCase("gen", p, nontriv(p))
 		}
 	}
@@ -258,9 +258,9 @@ func runC01(c *Ctx) {
 	for nloc := 0; nloc <= 5; nloc++ {
 		for nval := 0; nval <= 5; nval++ {
 			for rep := 0; rep < c.Budget(2, 40); rep++ {
-				p := valueListProfile(r, nloc, nval)
+				p := c01ValueListProfile(r, nloc, nval)
 				if b := serCase("lists", p, true, fmt.Sprintf("lists:%d/%d", nloc, nval)); b != nil {
-					c.Case("lists", L(S("parse"), S(string(b))), parseObs(b), true, "op:parse")
+					c.Case("lists", L(S("parse"), S(string(b))), c01ParseObs(b), true, "op:parse")
 					rtCase("lists", p, true)
 				}
 			}
@@ -283,19 +283,19 @@ func runC01(c *Ctx) {
 	// 4. hostile bytes: mutations of valid encodings, field soups, edge inputs
 	m := c.Budget(1200, 60000)
 	for i := 0; i < m && len(pool) > 0; i++ {
-		b := mutate(r, pool[r.Intn(len(pool))])
+		b := c01Mutate(r, pool[r.Intn(len(pool))])
 		if r.P(1, 4) {
-			b = mutate(r, b)
+			b = c01Mutate(r, b)
 		}
-		c.Case("mutated", L(S("parse"), S(string(b))), parseObs(b), len(b) > 8, "op:parse", "parse:mutated")
+		c.Case("mutated", L(S("parse"), S(string(b))), c01ParseObs(b), len(b) > 8, "op:parse", "parse:mutated")
 	}
 	for i := 0; i < c.Budget(600, 30000); i++ {
-		b := fieldSoup(r)
-		c.Case("soup", L(S("parse"), S(string(b))), parseObs(b), len(b) > 4, "op:parse", "parse:soup")
+		b := c01FieldSoup(r)
+		c.Case("soup", L(S("parse"), S(string(b))), c01ParseObs(b), len(b) > 4, "op:parse", "parse:soup")
 	}
 	for _, b := range [][]byte{{}, {0}, {0x32, 0}, {0x32, 1, 'a'}, {0x48, 1, 0x48, 2}, {0x32, 0, 0x48, 5, 0x48, 0},
 		{0x0a, 0x80, 0x80, 0x80, 0x80, 0x80, 0x80, 0x80, 0x80, 0x80, 0x01}, {0x0a, 0xff, 0xff, 0xff, 0xff, 0xff, 0xff, 0xff, 0xff, 0xff, 0x01, 0},
 		{0x32, 0, 0x12, 2, 0x1a, 0}, {0x32, 0, 0x12, 4, 0x08, 0x80, 0x80, 0x01}} {
-		c.Case("edge", L(S("parse"), S(string(b))), parseObs(b), true, "op:parse")
+		c.Case("edge", L(S("parse"), S(string(b))), c01ParseObs(b), true, "op:parse")
 	}
 }
